@@ -128,6 +128,52 @@ Theorem C14_margin_box_fixed_sum (outer pb : Q) (ma inner mb : oq) (top_or_left 
 Proof. exact (margin_box_fixed_sum outer pb ma inner mb top_or_left). Qed.
 Print Assumptions C14_margin_box_fixed_sum.
 
+(* ---- the same two functions as REGENERATED from weasyprint/layout/page.py on every run (gen/GenPage.v, interpreter
+   base/Py.v; compute_fixed_dimension from rule 2 on, the OrientedBox adapter as an attribute bag,
+   restore_box_attributes an oracle): they compute the hand models above for every auto pattern, so the two
+   theorems above are about the source *)
+Require WV.base.Py WV.gen.GenPage WV.proofs.C14_gen_page.
+Module GP := WV.proofs.C14_gen_page.
+
+Theorem C14_source_page_width_or_height O (HO : Py.ops_ok O) (HR : GP.restore_oracle O) ma inner mb pb cb :
+  Py.run O GenPage.page_width_or_height_body
+    [("box"%string, GP.obox ma inner mb pb); ("containing_block_size"%string, Py.VNum cb)]
+    (GP.pwh_post (page_width_or_height cb pb ma inner mb)) (fun _ => False).
+Proof. exact (GP.gen_page_width_or_height O HO HR ma inner mb pb cb). Qed.
+Print Assumptions C14_source_page_width_or_height.
+
+Theorem C14_source_compute_fixed_dimension O (HO : Py.ops_ok O) (HR : GP.restore_oracle O) ma inner mb pb outer (tl : bool) :
+  Py.run O GenPage.compute_fixed_dimension_body
+    [("box"%string, GP.obox ma inner mb pb); ("outer"%string, Py.VNum outer); ("top_or_left"%string, Py.VBool tl)]
+    (GP.cfd_post (compute_fixed_dimension outer pb ma inner mb tl))
+    (GP.cfd_err (compute_fixed_dimension outer pb ma inner mb tl)).
+Proof. exact (GP.gen_compute_fixed_dimension O HO HR ma inner mb pb outer tl). Qed.
+Print Assumptions C14_source_compute_fixed_dimension.
+
+(* the source's compute_fixed_dimension never fails its final assertion, makes margin + padding/border + inner +
+   margin equal to the page margin it has to fill, keeps a specified inner size and gives a non-negative one else *)
+Theorem C14_source_margin_box_fixed_sum O (HO : Py.ops_ok O) (HR : GP.restore_oracle O) ma inner mb pb outer (tl : bool) :
+  Py.run O GenPage.compute_fixed_dimension_body
+    [("box"%string, GP.obox ma inner mb pb); ("outer"%string, Py.VNum outer); ("top_or_left"%string, Py.VBool tl)]
+    (fun rho res => res = None /\ exists a i b, GP.box_nums rho a i b /\ a + pb + i + b == outer /\
+                    (forall w, inner = Some w -> i = w) /\ (inner = None -> 0 <= i))
+    (fun _ => False).
+Proof. exact (GP.source_fixed_dimension_sum O HO HR ma inner mb pb outer tl). Qed.
+Print Assumptions C14_source_margin_box_fixed_sum.
+
+(* the source's page_width_or_height leaves numbers, keeps what was specified and, unless over-constrained,
+   margin + padding/border + content + margin = the page size *)
+Theorem C14_source_page_content_area O (HO : Py.ops_ok O) (HR : GP.restore_oracle O) ma inner mb pb cb :
+  Py.run O GenPage.page_width_or_height_body
+    [("box"%string, GP.obox ma inner mb pb); ("containing_block_size"%string, Py.VNum cb)]
+    (fun rho res => res = None /\ exists a i b, GP.box_nums rho a i b /\
+                    (forall v, ma = Some v -> a = v) /\ (forall v, inner = Some v -> i = v) /\
+                    (forall v, mb = Some v -> b = v) /\
+                    (count_auto ma inner mb <> 0%nat -> a + pb + i + b == cb))
+    (fun _ => False).
+Proof. exact (GP.source_page_content_area O HO HR ma inner mb pb cb). Qed.
+Print Assumptions C14_source_page_content_area.
+
 (* compute_variable_dimension (css-page-3 5.3.2.1-3): the three boxes of a side *)
 Theorem C14_three_boxes_fit_when_possible avail a b c gen_b :
   content_ok a -> content_ok b -> content_ok c ->
